@@ -2,7 +2,7 @@ from props._solver import standard_run
 
 
 def run(ctx):
-    corr, viol = standard_run(ctx, "C01", {"sat", "term", "crash"}, 700, 12000,
+    corr, viol = standard_run(ctx, "C01", {"sat", "term", "crash"}, 700, 40000,
                               ["affine_eq_ground", "duplicate_shared_domain", "self_wake_skipped"])
     return {"corr_diffs": corr, "violations": viol, "component": "solveAll/optimize (NucsModel/Engine/Search.lean) vs BacktrackSolver",
             "hypotheses": ["C01 theorems assume ProbOk: posted within contract; all 21 shipped algorithms are in provenAlgs (alldifferent and gcc through their proved result checkers: that the checked models equal the code is established by the correspondence)"],
